@@ -168,7 +168,7 @@ proof {
     u.fn(C, "impl ConditionHolder", "new", ret="r", props=P,
          rules=[make_r_sub("R-attr", r"Self::default\(\)", "Self { contents: ConditionHolderContents::Empty }")],   # derive(Default) + #[default] Empty (trusted)
          spec="ensures r.contents is Empty,")
-    u.fn(C, "impl ConditionHolder", "new_with_condition", ret="r", props=P, spec="ensures r.contents == ConditionHolderContents::Condition(condition),")
+    u.fn(C, "impl ConditionHolder", "new_with_condition", ret="r", props=P + ["C08"], spec="ensures r.contents == ConditionHolderContents::Condition(condition),")
     u.fn(C, "impl ConditionHolder", "add_condition", props=P,
          rules=[make_r_sub("R-mem", r"std::mem::take\(&mut self\.contents\)", "vmem_take_contents(&mut self.contents)"),
                 make_r_sub("R-into", r"\.add\((current|addition)\)", r".add(\1)", min_count=3)],
@@ -280,11 +280,11 @@ ensures
     if nj == 0:
         raise rl.LostAnchor("no JoinOn::Condition(..) construction found under src/query")
     u.emit("impl SelectStatement {\n")
-    u.fn("src/query/select.rs", "impl SelectStatement", "join_join", props=P, rules=[r_retself], key="SelectStatement::join_join",
+    u.fn("src/query/select.rs", "impl SelectStatement", "join_join", props=P + ["C08"], rules=[r_retself], key="SelectStatement::join_join",
          spec="""ensures final(self).join@ == old(self).join@.push(JoinExpr { join, table: Box::new(table), on: Some(on), lateral }),
     final(self).r#where == old(self).r#where, final(self).having == old(self).having,""")
     r_tbl = [make_r_sub("R-into", r"where\s+R: IntoTableRef,\s+C: IntoCondition,", ""), make_r_sub("R-into", r"tbl_ref\.into_table_ref\(\)", "tbl_ref"), r_retself]
-    u.fn("src/query/select.rs", "impl SelectStatement", "join", props=P, key="SelectStatement::join",
+    u.fn("src/query/select.rs", "impl SelectStatement", "join", props=P + ["C08"], key="SelectStatement::join",
          rules=[make_r_sub("R-into", r"join<R, C>\(&mut self, join: JoinType, tbl_ref: R, condition: C\)", "join<C: IntoCondition>(&mut self, join: JoinType, tbl_ref: TableRef, condition: C)")] + r_tbl,
          spec=JOINP, proofs={"body-end": "proof { assert(self.join@.drop_last() =~= old(self).join@); }"})
     u.emit("}\n")
@@ -325,7 +325,7 @@ impl AnyBackend {
     condition.contents is Condition ==> exists|e: SimpleExpr| (%s#[trigger] sem_expr(e, env) == sem_holder(*condition, env))
         && final(sql).text() == old(sql).text() + seq![' '] + keyword@ + seq![' '] + #[trigger] expr_text(e),""" % ENV,
          proofs={"body-start": "let ghost t0 = sql.text();\nproof { reveal_strlit(\" \"); assert(\" \"@ =~= seq![' ']); }"})
-    u.fn(QB, "trait QueryBuilder", "prepare_join_on", props=P, key="QueryBuilder::prepare_join_on", vpath="AnyBackend::prepare_join_on",
+    u.fn(QB, "trait QueryBuilder", "prepare_join_on", props=P + ["C08"], key="QueryBuilder::prepare_join_on", vpath="AnyBackend::prepare_join_on",
          rules=[r_dynw, make_r_sub("R-panic", r"JoinOn::Columns\(_c\) => unimplemented!\(\),", "JoinOn::Columns(_c) => { Self::vpanic(); }")],
          spec="""requires !(join_on is Columns),   // not implemented upstream (panics)
 ensures
